@@ -542,6 +542,25 @@ def reconfig (s : St) (id : Nat) (cfg : Basket) : Option St :=
                                    tokens := retok b.tokens cfg.tokens }
     some { s with baskets := setBasket s.baskets nb }
 
+/-- `BasketWithdrawSurplus` (the WithdrawSurplus proposal), one basket: its recorded surplus is paid from the module to
+the target and the record's surplus is emptied. The basket is read from the STORE each time, so an id that the proposal
+lists twice finds an empty surplus the second time. (The staking-rewards part of the handler is outside this model.) -/
+def withdrawSurplus1 (s : St) (target : Acct) (id : Nat) : Option St :=
+  match getBasket s.baskets id with
+  | none => none
+  | some b =>
+    match s.bank.send .module target b.surplus with
+    | none => none
+    | some bank' => some { s with bank := bank', baskets := setBasket s.baskets { b with surplus := [] } }
+
+/-- the whole proposal: all listed ids in order; any failure aborts it (the proposal router discards the writes) -/
+def withdrawSurplus (s : St) (target : Acct) : List Nat → Option St
+  | [] => some s
+  | id :: ids =>
+    match withdrawSurplus1 s target id with
+    | none => none
+    | some s1 => withdrawSurplus s1 target ids
+
 inductive Op where
   | mint (a : Nat) (id : Nat) (dep : Coins)
   | burn (a : Nat) (id : Nat) (c : Coin)
